@@ -84,3 +84,69 @@ func buildChain(w *World, last common.Slot) *Scenario {
 	}
 	return sc
 }
+
+// buildGapChain: a chain with WHOLE EPOCHS without blocks between a parent and its child (2 and 3 epochs back, on the main
+// chain and on three side branches, before, across and after the altair fork), and with empty slots across the boundaries
+// of a short sync-committee period. Meant for a world with SLOTS_PER_EPOCH = 8, altair from epoch 3 and
+// EPOCHS_PER_SYNC_COMMITTEE_PERIOD = 2. The upgrade (epoch 3) sets current = next = the committee drawn for epoch 4, the
+// epoch transition 3->4 draws the same committee again (same seed epoch), so the period boundaries at epochs 4 and 6
+// rotate nothing; the boundaries at epoch 8 (slot 64) and epoch 10 (slot 80) install a different committee.
+//
+//	epoch  0: m1 m2 m3 m5 m6        epoch 1: -                    epoch 2: m17 m18 m19 (phase0, parent 2 epochs back)
+//	epoch  3: - (altair upgrade)    epoch 4: - (period boundary, nothing rotates)
+//	epoch  5: m41 (parent 3 epochs back, across the fork) m42 m43 m45 m46      epoch 6: - (period boundary, nothing rotates)
+//	epoch  7: m57 (parent 2 epochs back) m58 m60 m62, slot 63 empty
+//	epoch  8: (period boundary, the committee ROTATES) 64 65 empty, m66 m67 m69     epoch 9: -
+//	epoch 10: (period boundary, rotates) 80 empty, m81 (parent 2 epochs back) m82
+//	side A: m3 <- a20 (2 back, phase0) <- a44 (3 back, across the fork) <- a45
+//	side B: m58 <- b61 <- b63 <- b76 (2 back, across the rotating boundary)
+//	side C: m19 <- c26 (altair, 1 back) <- c49 (3 back) <- c73 (3 back, across the rotating boundary)
+func buildGapChain(w *World) *Scenario {
+	sc := &Scenario{W: w, BySlot: map[common.Slot]*Node{}, Special: map[string]common.ValidatorIndex{}}
+	tip := w.Genesis
+	sc.Main = append(sc.Main, tip)
+	sc.BySlot[0] = tip
+	for _, slot := range []common.Slot{1, 2, 3, 5, 6, 17, 18, 19, 41, 42, 43, 45, 46, 57, 58, 60, 62, 66, 67, 69, 81, 82} {
+		n := w.AddBlock(fmt.Sprintf("m%d", slot), tip, slot, BlockOps{})
+		if n == nil {
+			panic("gap chain: no slashings here")
+		}
+		tip = n
+		sc.Main = append(sc.Main, n)
+		sc.BySlot[slot] = n
+	}
+	branch := func(prefix string, graffiti byte, from *Node, slots ...common.Slot) []*Node {
+		var out []*Node
+		p := from
+		for _, slot := range slots {
+			n := w.AddBlock(fmt.Sprintf("%s%d", prefix, slot), p, slot, BlockOps{Graffiti: graffiti})
+			if n == nil {
+				panic("gap chain: no slashings here")
+			}
+			out = append(out, n)
+			p = n
+		}
+		return out
+	}
+	sc.Side = branch("a", 0xa1, sc.BySlot[3], 20, 44, 45)
+	sc.Side2 = append(branch("b", 0xb1, sc.BySlot[58], 61, 63, 76), branch("c", 0xc1, sc.BySlot[19], 26, 49, 73)...)
+	return sc
+}
+
+// named: the block of that name among the scenario's blocks.
+func (sc *Scenario) named(name string) *Node {
+	for _, n := range sc.W.Nodes {
+		if n.Name == name {
+			return n
+		}
+	}
+	panic("no block named " + name)
+}
+
+// epochsBack: how many epochs the parent of n lies before n.
+func (w *World) epochsBack(n *Node) uint64 {
+	if n.Parent == nil {
+		return 0
+	}
+	return uint64(w.Spec.SlotToEpoch(n.Slot) - w.Spec.SlotToEpoch(n.Parent.Slot))
+}
